@@ -184,6 +184,8 @@ macro_rules! query_loop {
                 (f, g) => return Err(Fail::new("fast-vs-general/query-equals-axis", format!("{}: query equal to the x axis: outcomes differ or fail: {:?} / {:?}", $ctx, f.map(|r| r.map(|_| ())), g.map(|r| r.map(|_| ()))))),
             }
         }
+        // xs and ys in different storage kinds (owned / view / shared): the fast path must still only relabel identical types
+        mixed_storage!($two, interp, s, $obs, $ctx);
         // wrongly shaped buffers (leading length off by one, trailing shape right): the fast path must reject what the
         // per-element path rejects
         {
@@ -229,6 +231,41 @@ macro_rules! callq {
     (two, $i:expr, $x:expr, $y:expr) => {
         $i.interp_array($x, $y).map(|a| a.into_dyn()).map_err(|e| e.to_string())
     };
+}
+macro_rules! mixed_storage {
+    (one, $interp:expr, $s:expr, $obs:expr, $ctx:expr) => {};
+    (two, $interp:expr, $s:expr, $obs:expr, $ctx:expr) => {{
+        let len = qshape_for(1)[0];
+        let xa = Array1::from_vec($s.qx[..len].to_vec());
+        let ya = Array1::from_vec($s.qy[..len].to_vec());
+        let (xsh, ysh) = (xa.clone().into_shared(), ya.clone().into_shared());
+        let general = catch(|| $interp.interp_array(&xa.clone().into_dyn(), &ya.clone().into_dyn()).map(|a| a.into_dyn()).map_err(|e| e.to_string()));
+        macro_rules! pair {
+            ($x:expr, $y:expr, $name:expr) => {{
+                let before = (cast_count(), mismatch_count());
+                let r = catch(|| $interp.interp_array($x, $y).map(|a| a.into_dyn()).map_err(|e| e.to_string()));
+                let after = (cast_count(), mismatch_count());
+                $obs.asserts += 2;
+                $obs.class("mixed-query-storage");
+                if after.1 != before.1 {
+                    return Err(Fail::new(format!("cast-mismatch/mixed-storage/{}", $name), format!("{}: xs / ys as {}: cast_unchecked between different types", $ctx, $name)));
+                }
+                match (&r, &general) {
+                    (Ok(Ok(a)), Ok(Ok(g))) if a.shape() == g.shape() && a.iter().map(|v| v.bits()).eq(g.iter().map(|v| v.bits())) => {}
+                    _ => {
+                        return Err(Fail::new(
+                            format!("fast-vs-general/mixed-storage/{}", $name),
+                            format!("{}: xs / ys as {}: fast path {:?}, per-element path {:?}", $ctx, $name, r.as_ref().map(|x| x.as_ref().map(|a| a.iter().take(4).cloned().collect::<Vec<_>>())), general.as_ref().map(|x| x.as_ref().map(|a| a.iter().take(4).cloned().collect::<Vec<_>>()))),
+                        ))
+                    }
+                }
+            }};
+        }
+        pair!(&xa, &ya.view(), "owned+view");
+        pair!(&xa.view(), &ya, "view+owned");
+        pair!(&xa, &ysh, "owned+shared");
+        pair!(&xsh, &ya.view(), "shared+view");
+    }};
 }
 macro_rules! callq_typed {
     (one, $i:expr, $x:expr, $y:expr) => {{
